@@ -394,7 +394,8 @@ def r5_sources(rep, ctx):
     jres = Resolver(m, je)
     accs = _accumulations(m, je, jres)
     jacc = _sums_exponents(m, je, jres, [MAPF], lambda mp, k: True, "the accumulation of the joined exponents")
-    if jacc is None and not accs:
+    loops_over_map = [lp for lp in own_statements(je.node) if isinstance(lp, ast.For) and any(x == MAPF for x in walk(jres.term(lp.iter)))]
+    if jacc is None and not accs and not loops_over_map:
         raise AnalysisError("Quantity.GetComposingUnitsJoiningExponents: the accumulation loop over the composing map was not found (another joining algorithm: the checker cannot tell whether non-adjacent repeats of a unit are joined)")
     acc_ok = jacc is not None and _entry_path(jacc["key"]) == (MAPF, (1, 0))
     rep.check(acc_ok, "C20.R5", "joined-exponents:accumulate-by-unit", "exponents are accumulated in a mapping keyed by the unit over all entries", "the joined exponents are not accumulated per unit", fn=je)
